@@ -533,7 +533,8 @@ def load(f, **options):  # type: (typing.IO, **typing.Any) -> canmatrix.CanMatri
     for line in f:
         i = i + 1
         l = line.strip()
-        if len(l) == 0:
+        if len(l) == 0 and follow_up == _FollowUps.NOTHING:
+            # an empty line inside a comment over several lines belongs to the comment
             continue
         try:
         # if 1==1:
